@@ -338,24 +338,20 @@ Proof. intros Hf T. eapply shape_inv; [exact T | apply upd_shape; exact Hf | app
 Lemma set_str_inv s n d : TreeInv s -> TreeInv (set_str s n d).
 Proof. apply upd_data_inv. intros it. repeat split. Qed.
 
-Lemma insert_data_inv s n k off d : TreeInv s -> TreeInv (fst (insert_data s n k off d)).
+Lemma edit_data_inv s n k off cnt x : TreeInv s -> TreeInv (fst (edit_data s n k off cnt x)).
 Proof.
-  intros T. unfold insert_data. destruct (len (data_of s n) <? off); [exact T|].
-  destruct (valid_for k d); cbn [fst]; [apply set_str_inv; exact T | exact T].
+  intros T. unfold edit_data. destruct (len (data_of s n) <? off); [exact T|].
+  destruct (valid_str k _); cbn [fst]; [apply set_str_inv; exact T | exact T].
 Qed.
+
+Lemma insert_data_inv s n k off d : TreeInv s -> TreeInv (fst (insert_data s n k off d)).
+Proof. apply edit_data_inv. Qed.
 
 Lemma delete_data_inv s n off cnt : TreeInv s -> TreeInv (fst (delete_data s n off cnt)).
-Proof.
-  intros T. unfold delete_data.
-  destruct (len (data_of s n) <? off); cbn [fst]; [exact T | apply set_str_inv; exact T].
-Qed.
+Proof. intros T. unfold delete_data. destruct (kind_of s n); [apply edit_data_inv; exact T | exact T]. Qed.
 
 Lemma replace_data_inv s n k off cnt d : TreeInv s -> TreeInv (fst (replace_data s n k off cnt d)).
-Proof.
-  intros T. unfold replace_data. pose proof (delete_data_inv s n off cnt T) as H.
-  destruct (delete_data s n off cnt) as [s1 o]. cbn [fst] in H.
-  destruct o; try exact H. apply insert_data_inv. exact H.
-Qed.
+Proof. apply edit_data_inv. Qed.
 
 Lemma pi_set_inv s n d : TreeInv s -> TreeInv (fst (pi_set s n d)).
 Proof.
@@ -412,15 +408,15 @@ Proof.
     apply get_upd_other. exact Hne.
 Qed.
 
-Lemma remove_attribute_inv s e name : TreeInv s -> TreeInv (fst (remove_attribute s e name)).
+Lemma remove_attrs_inv s e sel : TreeInv s -> TreeInv (fst (remove_attrs s e sel)).
 Proof.
-  intros T. unfold remove_attribute. cbn [fst]. apply invalidate_inv.
+  intros T. unfold remove_attrs. cbn [fst]. apply invalidate_inv.
   unfold attrs_of. destruct (get s e) as [eit|] eqn:He.
-  - replace (upd s e (with_attrs (filter (fun a => negb (local_is s name a)) (iattrs eit))))
-      with (upd s e (fun it => with_attrs (filter (fun a => negb (local_is s name a)) (iattrs eit)) (with_children (ichildren eit) it))).
+  - replace (upd s e (with_attrs (filter (fun a => negb (sel a)) (iattrs eit))))
+      with (upd s e (fun it => with_attrs (filter (fun a => negb (sel a)) (iattrs eit)) (with_children (ichildren eit) it))).
     2:{ unfold upd. rewrite He. reflexivity. }
-    apply (detach_many_inv s e eit (ichildren eit) (filter (fun a => negb (local_is s name a)) (iattrs eit))
-                           (filter (local_is s name) (iattrs eit)) T He).
+    apply (detach_many_inv s e eit (ichildren eit) (filter (fun a => negb (sel a)) (iattrs eit))
+                           (filter sel (iattrs eit)) T He).
     + tauto.
     + intros c Hc. apply filter_In in Hc. tauto.
     + eapply (ti_nodup_c s T); exact He.
@@ -428,18 +424,24 @@ Proof.
     + intros y. rewrite !filter_In. split.
       * intros [H1 H2]. right. split; [exact H1|]. intros [_ H3]. rewrite H2 in H3. discriminate.
       * intros [[H1 H2]|[H1 H2]]; [contradiction|]. split; [exact H1|].
-        destruct (local_is s name y) eqn:E; [reflexivity|]. exfalso. apply H2. split; [exact H1 | reflexivity].
+        destruct (sel y) eqn:E; [reflexivity|]. exfalso. apply H2. split; [exact H1 | reflexivity].
   - cbn. unfold upd. rewrite He. exact T.
 Qed.
 
-(** facts about the store after [remove_attribute] that [append_attribute] needs *)
-Lemma remove_attribute_frame s e name y :
-  let s1 := fst (remove_attribute s e name) in
+Lemma remove_attribute_inv s e name : TreeInv s -> TreeInv (fst (remove_attribute s e name)).
+Proof. apply remove_attrs_inv. Qed.
+
+Lemma remove_attribute_q_inv s e p name : TreeInv s -> TreeInv (fst (remove_attribute_q s e p name)).
+Proof. apply remove_attrs_inv. Qed.
+
+(** facts about the store after [remove_attrs] that [append_attribute] needs *)
+Lemma remove_attrs_frame s e sel y :
+  let s1 := fst (remove_attrs s e sel) in
   kind_of s1 y = kind_of s y
   /\ (parent_of s y = None -> parent_of s1 y = None).
 Proof.
-  cbn zeta. unfold remove_attribute. cbn [fst]. unfold kind_of, parent_of. rewrite !get_invalidate, !fold_unparent_get.
-  destruct (mem y (filter (local_is s name) (attrs_of s e))).
+  cbn zeta. unfold remove_attrs. cbn [fst]. unfold kind_of, parent_of. rewrite !get_invalidate, !fold_unparent_get.
+  destruct (mem y (filter sel (attrs_of s e))).
   - rewrite get_upd. destruct (N.eqb_spec y e) as [->|].
     + destruct (get s e); cbn; split; reflexivity.
     + destruct (get s y); cbn; split; reflexivity.
@@ -447,6 +449,12 @@ Proof.
     + destruct (get s e); cbn; split; tauto.
     + split; tauto.
 Qed.
+
+Lemma remove_attribute_frame s e name y :
+  let s1 := fst (remove_attribute s e name) in
+  kind_of s1 y = kind_of s y
+  /\ (parent_of s y = None -> parent_of s1 y = None).
+Proof. apply remove_attrs_frame. Qed.
 
 Lemma append_attribute_inv s e a eit ait :
   TreeInv s -> get s e = Some eit -> ikind eit = KEl -> get s a = Some ait -> ikind ait = KAt -> iparent ait = None ->
@@ -501,9 +509,10 @@ Proof.
   destruct (kind_eqb (ikind ait) KAt && has_kind s KEl e) eqn:Hk; [|exact T].
   apply andb_true_iff in Hk. destruct Hk as [Hk1 Hk2].
   destruct (kind_eqb_spec (ikind ait) KAt) as [Ka|]; [|discriminate].
-  pose proof (remove_attribute_inv s e (ilocal ait) T) as T1.
-  pose proof (remove_attribute_frame s e (ilocal ait)) as Hfr. cbn zeta in Hfr.
-  destruct (remove_attribute s e (ilocal ait)) as [s1 old] eqn:R. cbn [fst] in *.
+  pose proof (remove_attribute_q_inv s e (iprefix ait) (ilocal ait) T) as T1.
+  pose proof (remove_attrs_frame s e (qname_is s (iprefix ait) (ilocal ait))) as Hfr. cbn zeta in Hfr.
+  fold (remove_attribute_q s e (iprefix ait) (ilocal ait)) in Hfr.
+  destruct (remove_attribute_q s e (iprefix ait) (ilocal ait)) as [s1 old] eqn:R. cbn [fst] in *.
   destruct (Hfr e) as [Hke _]. destruct (Hfr (snd a)) as [Hka Hpa].
   rewrite has_kind_kind_of in Hk2. rewrite <- Hke in Hk2. unfold kind_of in Hk2.
   destruct (get s1 e) as [eit1|] eqn:He1; [|discriminate]. cbn in Hk2.
@@ -647,7 +656,7 @@ Section Generic.
   Hypothesis H_ib : forall s r x f, P s -> P (fst (info_insert_before s r x f)).
   Hypothesis H_ap : forall s r x, P s -> P (fst (info_append s r x)).
   Hypothesis H_del : forall s r x, P s -> P (fst (info_delete s r x)).
-  Hypothesis H_ra : forall s e name, P s -> P (fst (remove_attribute s e name)).
+  Hypothesis H_ra : forall s e sel, P s -> P (fst (remove_attrs s e sel)).
   Hypothesis H_san : forall w k s e a, P s -> P (fst (dom_set_attribute_node w k s e a)).
   Hypothesis H_sv : forall s a d, P s -> has_kind s KAt a = true -> P (fst (set_values s a d)).
   Hypothesis H_cr : forall s it, P s -> iparent it = None -> ichildren it = [] -> iattrs it = [] -> ikind it <> KDoc ->
@@ -752,29 +761,30 @@ Section Generic.
       destruct (create_spec s (new_item KAt p l [] false None)) as [Hi [_ [_ [Hg _]]]].
       destruct (create s (new_item KAt p l [] false None)) as [a s1]. cbn [fst snd] in *. subst a.
       assert (Ka : has_kind s1 KAt (next s) = true) by (unfold has_kind; rewrite Hg; reflexivity).
-      pose proof (H_sv s1 (next s) value T1 Ka) as T2.
-      destruct (set_values s1 (next s) value) as [s2 [|]]; cbn [fst] in *; [|exact T2].
-      pose proof (H_san w (fst r) s2 (snd r) (fst r, next s) T2) as T3.
-      destruct (dom_set_attribute_node w (fst r) s2 (snd r) (fst r, next s)) as [s3 oc]. cbn [fst] in T3.
-      destruct oc; exact T3.
+      destruct (attribute_q s1 (snd r) p l) as [present|] eqn:Hpr.
+      + (* the attribute is present: its value is changed *)
+        assert (Kp : has_kind s1 KAt present = true).
+        { unfold attribute_q in Hpr. apply find_some in Hpr. destruct Hpr as [_ Hq].
+          apply andb_true_iff in Hq. tauto. }
+        pose proof (H_sv s1 present value T1 Kp) as T2.
+        destruct (set_values s1 present value) as [s2 [|]]; exact T2.
+      + pose proof (H_sv s1 (next s) value T1 Ka) as T2.
+        destruct (set_values s1 (next s) value) as [s2 [|]]; cbn [fst] in *; [|exact T2].
+        pose proof (H_san w (fst r) s2 (snd r) (fst r, next s) T2) as T3.
+        destruct (dom_set_attribute_node w (fst r) s2 (snd r) (fst r, next s)) as [s3 oc]. cbn [fst] in T3.
+        destruct oc; exact T3.
     - (* SetAttributeNode *)
       destruct (attr_local w a) as [nm|]; [|exact Hw]. apply on_element_P; [exact Hw|]. intros s T _.
       apply H_san. exact T.
     - (* RemoveAttribute *)
       apply on_element_P; [exact Hw|]. intros s T _. cbn [fst]. apply H_ra. exact T.
     - (* RemoveAttributeNode *)
-      destruct (attr_local w a) as [nm|]; [|exact Hw]. apply on_element_P; [exact Hw|]. intros s T _.
-      destruct (get_attribute_node s (snd r) nm); cbn [fst]; [apply H_ra; exact T | exact T].
+      destruct (attr_q w a) as [[p l]|]; [|exact Hw]. apply on_element_P; [exact Hw|]. intros s T _.
+      destruct (attribute_q s (snd r) p l) as [f|]; [|exact T].
+      destruct ((f =? snd a) && (fst a =? fst r)); cbn [fst]; [apply H_ra; exact T | exact T].
     - (* SetNamedItem *)
       destruct (attr_local w a) as [nm|]; [|exact Hw]. apply on_element_P; [exact Hw|]. intros s T _.
-      destruct (get_attribute_node s (snd r) nm).
-      + pose proof (H_ra s (snd r) nm T) as T1.
-        pose proof (H_san w (fst r) (fst (remove_attribute s (snd r) nm)) (snd r) a T1) as T2.
-        destruct (dom_set_attribute_node w (fst r) (fst (remove_attribute s (snd r) nm)) (snd r) a) as [s2 oc]. cbn [fst] in T2.
-        destruct oc; exact T2.
-      + pose proof (H_san w (fst r) s (snd r) a T) as T2.
-        destruct (dom_set_attribute_node w (fst r) s (snd r) a) as [s2 oc]. cbn [fst] in T2.
-        destruct oc; exact T2.
+      apply H_san. exact T.
     - (* RemoveNamedItem *)
       apply on_element_P; [exact Hw|]. intros s T _.
       destruct (get_attribute_node s (snd r) name); cbn [fst]; [apply H_ra; exact T | exact T].
@@ -785,13 +795,13 @@ Section Generic.
       apply on_document_P; [exact Hw|]. intros s T. destruct (n_attr name) as [[p l]|]; [|exact T].
       apply factory_P; try reflexivity; [exact T | discriminate].
     - (* CreateTextNode *)
-      apply on_document_P; [exact Hw|]. intros s T. destruct (d_text data); [|exact T].
+      apply on_document_P; [exact Hw|]. intros s T. destruct (valid_str KTx (d_str data)); [|exact T].
       apply factory_P; try reflexivity; [exact T | discriminate].
     - (* CreateComment *)
-      apply on_document_P; [exact Hw|]. intros s T. destruct (d_comment data); [|exact T].
+      apply on_document_P; [exact Hw|]. intros s T. destruct (valid_str KCm (d_str data)); [|exact T].
       apply factory_P; try reflexivity; [exact T | discriminate].
     - (* CreateCDataSection *)
-      apply on_document_P; [exact Hw|]. intros s T. destruct (d_cdata data); [|exact T].
+      apply on_document_P; [exact Hw|]. intros s T. destruct (valid_str KCd (d_str data)); [|exact T].
       apply factory_P; try reflexivity; [exact T | discriminate].
     - (* CreateProcessingInstruction *)
       apply on_document_P; [exact Hw|]. intros s T.
@@ -845,7 +855,7 @@ Proof.
   - apply info_insert_before_inv; assumption.
   - apply info_append_inv; assumption.
   - apply info_delete_inv; assumption.
-  - apply remove_attribute_inv; assumption.
+  - apply remove_attrs_inv; assumption.
   - apply dom_set_attribute_node_inv; assumption.
   - apply set_values_inv; assumption.
   - apply create_tree_inv; assumption.
@@ -862,7 +872,7 @@ Proof.
   - apply info_insert_before_inv; assumption.
   - apply info_append_inv; assumption.
   - apply info_delete_inv; assumption.
-  - apply remove_attribute_inv; assumption.
+  - apply remove_attrs_inv; assumption.
   - apply dom_set_attribute_node_inv; assumption.
   - apply set_values_inv; assumption.
   - apply create_tree_inv; assumption.
